@@ -1,9 +1,13 @@
 import P2PVerif.Driver.Core
 import P2PVerif.Driver.Mux
+import P2PVerif.Driver.Cache
+import P2PVerif.Driver.DHT
 open P2PVerif.Driver
 
 def streams : List (String × Stream) := [
-  ("mux", muxStream)
+  ("mux", muxStream),
+  ("cache", cacheStream),
+  ("dht", dhtStream)
 ]
 
 def main (args : List String) : IO UInt32 := do
